@@ -34,10 +34,11 @@ def plan(tier, seed):
     n, shards = 4, 64
   total = 1 << (n * n)
   per = total // shards
-  out = [{'witness': 'caught_cycle_error'}]
+  out = []
   for s in range(shards):
     out.append({'n': n, 'lo': s * per, 'hi': (s + 1) * per, 'rot': seed,
                 'addtable_orders': 6 if n == 3 else 2})
+  out[0]['also_witness'] = 'caught_cycle_error'     # the open finding's witness rides on the first shard (<= 16 shards)
   return out
 
 
@@ -215,7 +216,7 @@ def witness_caught_cycle_error(acc):
   swapped both cells hold CircularRefError. (The upstream test test_catch_all_in_formula asserts this
   behaviour, so no repair is proposed.)"""
   from vlib.client import EngineProc
-  with EngineProc() as p:
+  with EngineProc(timeout=180.0) as p:
     p.init_doc()
     p.apply([['AddTable', 'T', [{'id': 'A', 'type': 'Any', 'isFormula': True, 'formula': '$B'},
                                 {'id': 'B', 'type': 'Any', 'isFormula': True, 'formula': 'IFERROR($A, 5)'}]],
@@ -234,7 +235,12 @@ def run_shard(spec, acc):
   if spec.get('witness'):
     return globals()['witness_' + spec['witness']](acc)
   from vlib.client import EngineProc, Watchdog, EngineDied
-  p = EngineProc(timeout=60.0, record=False)
+  if spec.get('also_witness'):
+    try:
+      globals()['witness_' + spec['also_witness']](acc)
+    except Watchdog as e:
+      acc.inconclusive.append('watchdog in witness: %s' % e)
+  p = EngineProc(timeout=180.0, record=False)
   try:
     Enum(acc, spec, p).run()
   except Watchdog as e:
